@@ -726,13 +726,15 @@ class Bubble(monoidal.Bubble, Box):
             :align: center
         """
         from sympy import Symbol
+        if var not in self.free_symbols:
+            return self.sum([], self.dom, self.cod)
         tmp = Symbol("tmp")
         name = "$\\frac{{\\partial {}}}{{\\partial {}}}$"
-        return Spider(1, 2, dim=self.dom)\
+        return Spider(1, 2, dim=Dim.upgrade(self.dom))\
             >> self.inside.bubble(
                 func=lambda x: self.func(tmp).diff(tmp).subs(tmp, x),
                 drawing_name=name.format(self.drawing_name, var))\
-            @ self.inside.grad(var) >> Spider(2, 1, dim=self.cod)
+            @ self.inside.grad(var) >> Spider(2, 1, dim=Dim.upgrade(self.cod))
 
 
 Diagram.bubble_factory = Bubble
